@@ -93,7 +93,7 @@ package api
 //@   loop 1 invariant keysOK() && rangeindex >= -1 && rangeindex <= 1<<48
 
 //@ func NewLoggingResponseWriter
-//@   ensures r0 != nil && fresh(r0) && r0.Request == r && r0.Status == 0
+//@   ensures r0 != nil && fresh(r0) && r0.Request == r && r0.Status == 0 && r0.ResponseWriter == w
 
 // the request pipeline: cross-origin check first, then authentication, then the handler
 //@ func (*mainHandler).handle
